@@ -432,6 +432,19 @@ Section VSQS.
   Fixpoint somes {X} (l : list (option X)) : list X :=
     match l with [] => [] | Some x :: r => x :: somes r | None :: r => somes r end.
   Definition vsqs_build (c : vsqs_cfg) (th : list T) (d : T) : list V := somes (vsqs_layout c gb th d).
+
+  (* ---- the variants selected by the facts regenerated from vsqs.py (translator/ansatz_tables.py) ---- *)
+  Variable gbv : T -> C -> V.     (* exp_pauliword_to_gates(word, coeff*time, variational=True): always a gate *)
+  (* build_circuit: drops = the variational pieces go through get_exponentiated_qubit_operator_circuit (negligible
+     terms omitted); otherwise through _variational_evolution (one gate for every term) *)
+  Definition vsqs_build_src (drops : bool) (c : vsqs_cfg) (th : list T) (d : T) : list V :=
+    if drops then vsqs_build c th d else vsqs_layout c gbv th d.
+  (* update_var_params: size_test = starts with set_var_params; offsets_ref = offsets counted from n_ref *)
+  Definition vsqs_update_src (size_test offsets_ref : bool) (c : vsqs_cfg) (v : list V) (th : list T) : res (list V) :=
+    if size_test && negb (length th =? vsqs_n_var_params c) then Err ValueError
+    else if offsets_ref
+         then vsqs_loop_z c (Z.of_nat (length v) - Z.of_nat (n_var_gates c * n_steps c))%Z th (seq 0 (n_steps c)) v
+         else vsqs_loop c 0 th (seq 0 (n_steps c)) v.
 End VSQS.
 
 (* ================================================================================================ *)
